@@ -59,11 +59,14 @@ Print Assumptions C06_await_orig_refuted.
    Completed, DataDeleted); the delete consumer only deletion requests. *)
 From WF Require Import model.EngineBase model.Engine proofs.EngineInv proofs.EngineTokens proofs.EngineProps proofs.Delivery.
 Theorem C06_who_receives : forall c ops, hist_ok ops -> forall u pos idx e,
+  (forall cid i n, u <> EConn cid i n) ->      (* connector consumers read their connector's external source instead *)
   next_event (unit_topic u) (w_log (fst (run_ops c ops))) 0 pos = Some (idx, e) ->
   exists r, In r (w_hist (fst (run_ops c ops))) /\ ev_of e (route 0%N r) /\ route_topic r = unit_topic u.
 Proof.
-  intros c ops H u pos idx e Hn. destruct (next_event_spec _ _ _ _ _ _ Hn) as (_ & A & B & _).
-  rewrite Nat.sub_0_r in A. apply nth_error_In in A. destruct (p_nothing_invented c ops H e A) as (r & Hr & Ev).
+  intros c ops H u pos idx e Hu Hn. destruct (next_event_spec _ _ _ _ _ _ Hn) as (_ & A & B & _).
+  rewrite Nat.sub_0_r in A. apply nth_error_In in A.
+  assert (Hc : conn_topic (e_topic e) = false) by (rewrite B; destruct u; try reflexivity; exfalso; eapply Hu; reflexivity).
+  destruct (p_nothing_invented c ops H e A Hc) as (r & Hr & Ev).
   exists r. split; [exact Hr|]. split; [exact Ev|]. destruct Ev as (_ & E2 & _). cbn in E2. congruence.
 Qed.
 Print Assumptions C06_who_receives.
